@@ -185,10 +185,12 @@ def run(rep, repo, tier):
         'marker on its path (escape completeness incl. the CRC byte), the escape table of gstuff_byte is the inverse '
         'of the one proved for the receiver in C05, return value = bytes written, CRC seed 0xFF, every store within '
         '2n+4 bytes (single buffer entry point, all n), self-sizing overloads allocate at least what the encoder '
-        'writes, and the shipped marker alphabets are consistent. decode(encode(p)) == p as a whole is not decided.')
+        'writes, and the shipped marker alphabets are consistent; for 2 and 3 scatter-gather pieces of arbitrary lengths '
+        '(empty pieces included) the frame is closed, lies within 2*total+4 bytes and is at least total+3 bytes long, so no '
+        'piece is dropped (R-PIECES). decode(encode(p)) == p as a whole is not decided.')
     rep.assumptions += ['marker values of the configurable codec are arbitrary (symbolic context)',
                         'std::vector<uint8_t> is trusted and summarised (resize/operator[])',
-                        'iovec based entry point analysed for the frame grammar with symbolic n and for sizes with n == 1']
+                        'iovec based entry point analysed for the frame grammar with symbolic n, for sizes with n == 1 (self-sizing overload) and n in {2, 3} (raw buffer)']
     src = repo + '/igris/protocols/gstuff.cpp'
     mod = compile_ir(src, repo)
     rep.units.append('igris/protocols/gstuff.cpp')
@@ -229,6 +231,48 @@ def run(rep, repo, tier):
             else:
                 o['function'] = fname + ('(iovec)' if fname == 'gstuffing_v' else '(buffer)')
         rep.add_absint(label, obs)
+
+    # --- scatter-gather: every piece is encoded.  gstuffing_v with 2 and 3 pieces of symbolic lengths (0 included): the frame
+    # grammar holds, every store lies within 2*(sum of lengths)+4 bytes, and the frame is at least START + one unit per
+    # payload byte + CRC + STOP long.  An encoder that stops at (or skips the rest after) an empty or a short piece returns
+    # a shorter frame than that.
+    cands = [f for f in mod.defined() if f.srcname == 'gstuffing_v' and not any(p.get('sret') for p in f.params)]
+    f = cands[0]
+    for k in (2, 3):
+        it = Interp(mod, externals=CRC_EXT, opaque=CRC_OPAQUE)
+        mon = FrameMonitor('outdata')
+        it.store_hook = mon.hook
+        it.ghost_keys = ('frame',)
+        r = ContractRun(it, [CTX])
+
+        def psetup(run, st, env, names, args, sps, k=k, mon=mon):
+            v = st.new_obj('param', Lin(16 * k), 'vec', {'desc': 'iovec array (%d elements)' % k})
+            total = Lin(0)
+            for j in range(k):
+                n = st.fresh_int(64, False, 'len%d' % j)
+                st.cons.add_le(n.u, 1 << 28)
+                data = st.new_obj('param', n.u, 'piece%d' % j, {'desc': 'payload vec[%d].iov_base' % j})
+                st.mem[(v.id, 16 * j, 8)] = PtrVal(data.id, Lin(0))
+                st.mem[(v.id, 16 * j + 8, 8)] = n
+                env.bind('len%d' % j, n.u)
+                total = total + n.u
+            args[names.index('vec')] = PtrVal(v.id, Lin(0))
+            st.objs[args[names.index('outdata')].obj].size = total * 2 + 4
+            mon.setup(run, st, env, names, args, sps)
+        tot = ' + '.join('len%d' % j for j in range(k))
+        r.run(f.name, FnSpec(setup=psetup, pre=['n == %d' % k], post=[
+            dict(name='frame-closed', then=['ghost_frame == 3']),
+            dict(name='returns-length', then=['ret == ghost_lastoff + 1']),
+            dict(name='every-piece-is-encoded(frame >= payload + 3)', then=['ret >= %s + 3' % tot]),
+            dict(name='worst-case-size', then=['ret <= 2 * (%s) + 4' % tot])]), fn=f)
+        obs = summarize(it, r)
+        for o in obs:
+            if o.get('call_stack'):
+                o['root'] = 'gstuffing_v(iovec,n==%d)' % k
+                o['leaf'] = mod.fn(o['function']).srcname if mod.fn(o['function']) else o['function']
+            else:
+                o['function'] = 'gstuffing_v(iovec,n==%d)' % k
+        rep.add_absint('R-PIECES', obs)
 
     # --- self-sizing overloads
     for fname, pre, extents, tag in (
@@ -299,3 +343,5 @@ def run(rep, repo, tier):
     rep.floor('R-SELFSIZE:bounds', 4)
     rep.floor('R-FRAME-LEGACY:frame', 3)
     rep.floor('R-ALPHABET', 6)
+    rep.floor('R-PIECES:post', 8)
+    rep.floor('R-PIECES:bounds', 4)
